@@ -593,8 +593,13 @@ void ExpressionBuilder::expr_dot(const char* id)
             expr = expression_t::create_dot(expr, *i, position, type_t::create_primitive(Constants::BOOL));
         } else {
             type = type.get_sub(*i).rename(process->templ->uid.get_name() + "::", name.get_name() + "::");
-            for (const auto& [s, e] : process->mapping)
-                type = type.subst(s, e);
+            // The argument of a parameter may mention the parameters of the partial instances the process was
+            // instantiated through; those are listed first, so substitute from the innermost parameter outwards.
+            for (auto n = process->parameters.get_size(); n-- > 0;) {
+                const auto binding = process->mapping.find(process->parameters[n]);
+                if (binding != process->mapping.end())
+                    type = type.subst(binding->first, binding->second);
+            }
             expr = expression_t::create_dot(expr, *i, position, type);
         }
     } else if (type.is(PROCESS_VAR)) {
